@@ -217,6 +217,9 @@ fn main() {
         ("assert_eq(\"abc\", \"abc\")", true), ("assert_eq(\"abc\", \"abd\")", false),
         ("assert_eq([1, 2, 3], [1, 2, 3])", true), ("assert_eq([1, 2, 3], [1, 2, 4])", false), ("assert_eq([1 m, 2 m], [100 cm, 200 cm])", true),
         ("assert_eq([1, 2], [1, 2, 3])", false), ("assert_eq(\"{1 + 1}\", \"2\")", true),
+        // a zero tolerance written without a unit (the literal 0 has every dimension)
+        ("assert_eq(1 m, 1 m, 0)", true), ("assert_eq(1 m, 2 m, 0)", false), ("assert_eq(1 m, 100 cm, 0)", true), ("assert_eq(0, 5 m, 0)", false),
+        ("assert_eq([], [1 m])", false), ("assert_eq([1], [1, 1])", false), ("assert_eq([[1], [2]], [[1], [2, 3]])", false),
     ];
     for (s, ok) in texts {
         run_case(&ctx, &units, &mut out, &Case::Text(s.to_string(), *ok));
